@@ -59,6 +59,44 @@ defvjp_argnums(op, op_vjpmaker)
 defjvp_argnums(op, op_jvpmaker)
 
 
+# the same operation registered through the per-argument API (defvjp / defjvp): one rule per position
+@primitive
+def op2(nid, kind, consts, *args):
+    return op(nid, kind, consts, *args)
+
+
+LOG2 = []                                   # (node, argument position) of every per-argument rule call
+
+
+def _vjp_rule(k):
+    def maker(ans, nid, kind, consts, *vals):
+        c = partial(kind, consts, vals, k)
+
+        def vjp(g):
+            if BOMB["armed"] and BOMB["node"] == nid:
+                raise RuntimeError("planted fault in the derivative rule of node %d" % nid)
+            LOG2.append((nid, k))
+            if not LOG or LOG[-1] != nid:
+                LOG.append(nid)
+            return g * c
+        return vjp
+    return maker
+
+
+def _jvp_rule(k):
+    return lambda g, ans, nid, kind, consts, *vals: partial(kind, consts, vals, k) * g
+
+
+from autograd.extend import defvjp as _defvjp, defjvp as _defjvp  # noqa: E402
+_defvjp(op2, None, None, None, *[_vjp_rule(k) for k in range(4)])
+_defjvp(op2, None, None, None, *[_jvp_rule(k) for k in range(4)])
+API = {"fn": op}
+
+
+class SecondPullback(Exception):
+    pass
+
+
 class Recorder:
     """Numbers the nodes of the executed trace in creation order and records,
     per node, (parent index, local partial) for the traced arguments only."""
@@ -79,7 +117,7 @@ class Recorder:
         for k, a in enumerate(args):
             if isbox(a):
                 entry.append((self.ids[id(a._node)], int(partial(kind, consts, vals, k))))
-        out = op(nid, kind, consts, *args)
+        out = API["fn"](nid, kind, consts, *args)
         if isbox(out):
             self.ids[id(out._node)] = nid
             self.keep.append(out._node)
@@ -93,7 +131,7 @@ def gen_tape(rng, size):
     nodes = []
     for i in range(1, n + 1):
         style = rng.random()
-        k = rng.choice([1, 1, 2, 2, 3])
+        k = rng.choice([1, 1, 2, 2, 3, 3, 4])
         args = []
         for _ in range(k):
             r = rng.random()
@@ -131,12 +169,22 @@ def run_tape(nodes, e, x0, g, mode):
 
     if mode == "vjp":
         del LOG[:]
+        del LOG2[:]
         vjp, val = make_vjp(f, x0)
         out = created["out"]
         if not isbox(out):
             return None
         grad = vjp(float(g))
-        return rec, rec.ids[id(out._node)], grad, list(LOG), val
+        log1, pairs1 = list(LOG), list(LOG2)
+        # the pull-back is a function: a second call over the same trace gives the same answer, invoking the
+        # same rules once each
+        del LOG[:]
+        del LOG2[:]
+        grad2 = vjp(float(g))
+        if grad2 != grad or list(LOG) != log1 or len(set(pairs1)) != len(pairs1) or sorted(LOG2) != sorted(pairs1):
+            raise SecondPullback("second pull-back over the same trace: gradient %r then %r; rule log %r then %r"
+                                 % (grad, grad2, log1[:12], list(LOG)[:12]))
+        return rec, rec.ids[id(out._node)], grad, log1, val
     else:
         val, tan = make_jvp(f, x0)(float(g))
         return tan
@@ -210,12 +258,22 @@ def run_program(prog, x0, g, mode):
 
     if mode == "vjp":
         del LOG[:]
+        del LOG2[:]
         vjp, val = make_vjp(f, x0)
         out = created["out"]
         if not isbox(out):
             return None
         grad = vjp(float(g))
-        return rec, rec.ids[id(out._node)], grad, list(LOG), val
+        log1, pairs1 = list(LOG), list(LOG2)
+        # the pull-back is a function: a second call over the same trace gives the same answer, invoking the
+        # same rules once each
+        del LOG[:]
+        del LOG2[:]
+        grad2 = vjp(float(g))
+        if grad2 != grad or list(LOG) != log1 or len(set(pairs1)) != len(pairs1) or sorted(LOG2) != sorted(pairs1):
+            raise SecondPullback("second pull-back over the same trace: gradient %r then %r; rule log %r then %r"
+                                 % (grad, grad2, log1[:12], list(LOG)[:12]))
+        return rec, rec.ids[id(out._node)], grad, log1, val
     else:
         val, tan = make_jvp(f, x0)(float(g))
         return tan
@@ -249,6 +307,8 @@ def main():
         is_prog = i >= cfg["n_tapes"]
         x0 = float(rng.choice([1, 2, 3, -1, -2]))
         g = rng.choice([-3, -2, -1, 1, 2, 3])
+        API["fn"] = op if rng.random() < 0.5 else op2      # registration API of this case's primitives
+        dist("api=defvjp_argnums" if API["fn"] is op else "api=defvjp-per-argument")
         try:
             if is_prog:
                 prog = gen_block(rng, 2, 0)
